@@ -29,6 +29,14 @@
     -- theorem accept_only_signed : accepts tokenBytes → ∃ k ∈ configured, kid tokenBytes = id k ∧
     --     Ed25519.verify k.pub (signingInput tokenBytes) (signature tokenBytes)
 
+  STATELESSNESS. In the model the accessInfo is a function of (configuration, clock, token) ALONE: `parseAccessToken`
+  takes no state, so "a token is granted only what IT carries, whatever was parsed before" is the model's form, not a
+  theorem about the code. What ties it to the code is the correspondence: the harness parses SEQUENCES of tokens
+  (privileged, then bit-less / null / [] / fewer / foreign bits, valid and invalid mixed) with one JWTHelper in one
+  process, the driver answers each token from the token alone, and the oracle grant-depends-on-previous-token
+  re-parses every accepted token after a different history. A reused / pooled decode target that keeps fields of an
+  earlier token (encoding/json only overwrites keys that are present) shows up as a disagreement there.
+
   Observation outside the property: a correctly signed token without `exp` makes Claims.Valid dereference nil
   (`Verdict.panic`); it is not accepted, so the property is unaffected.
 -/
